@@ -72,6 +72,16 @@ class TaggedAttributeError(AttributeError):
         self.tag = tag
 
 
+class _Ambiguous:
+    """An exit's reply whose truth test raises"""
+
+    def __init__(self, exc):
+        self.exc = exc
+
+    def __bool__(self):
+        raise self.exc
+
+
 class TaggedStop(StopIteration):
     def __init__(self, tag):
         StopIteration.__init__(self, repr(tag))
@@ -113,7 +123,8 @@ def model_unwind(entries, exc, block_exc=None):
         if b == "truthy":
             if not is_cb and exc is not None:
                 exc = None
-        elif b == "raise_new" or b == "raise_interrupt" or (b == "raise_handling" and recv is not None):
+        elif b == "raise_new" or b == "raise_interrupt" or (b == "raise_handling" and recv is not None) \
+                or (b == "ambiguous" and not is_cb and recv is not None):
             exc = ("exit", e.name)
         elif b == "reraise_block":
             if block_exc is not None:
@@ -220,6 +231,11 @@ class Env:
         if b == "raise_interrupt":
             # a request to shut down raised by an exit: an exception like any other for the exits still to come
             raise (TaggedInterrupt, TaggedSystemExit)[e.susp % 2](("exit", e.name))
+        if b == "ambiguous":
+            # the reply's truth value cannot be taken: finding that out raises - an error like one raised by the exit itself
+            # (only when it is handed an exception: without one the statement does not look at the reply at all, while a
+            # stack - contextlib's too - does; replies of that kind are outside the property's quantifier anyway)
+            return _Ambiguous(self.exc_type(("exit", e.name))) if exc is not None else False
         if b == "reraise_block":
             # the exit raises the very object the block raised (it kept it), whatever happened to it in between
             if self.block_exc is not None:
@@ -458,6 +474,9 @@ def gen(ch):
         if ch.chance(1, 6):
             # one exit raises KeyboardInterrupt / SystemExit (tagged subclasses)
             sc.entries[ch.draw(n)].behave = "raise_interrupt"
+        if ch.chance(1, 8):
+            # one exit replies with an object whose truth value cannot be taken
+            sc.entries[ch.draw(n)].behave = "ambiguous"
         if sc.block_raises and ch.chance(1, 5):
             # one exit raises the very exception object of the block again - also after a later exit suppressed it
             sc.entries[ch.draw(n)].behave = "reraise_block"
